@@ -467,8 +467,9 @@ Fixpoint drop_refs (rec : mach -> key -> outcome (mach * list event)) (m : mach)
       end
   end.
 
-(* drop_closure: `closures.get_mut(id).unwrap()` panics on a stale id; refcount -= 1; at 0: collect the
-   closure-typed closed upvalues, drop each referenced closure (and release its heap wrapper), remove. *)
+(* drop_closure: `closures.get_mut(id).unwrap()` panics on a stale id; refcount -= 1; at 0: if the closure was
+   closed (`owns_refs = cls.is_closed`: only closing retains what the shared cells hold) collect the closure-typed
+   closed upvalues, drop each referenced closure (and release its heap wrapper); remove. *)
 Fixpoint drop_closure (fuel : nat) (up : upvalue_oracle) (m : mach) (id : key) : outcome (mach * list event) :=
   match fuel with
   | O => OutOfFuel
@@ -483,7 +484,7 @@ Fixpoint drop_closure (fuel : nat) (up : upvalue_oracle) (m : mach) (id : key) :
           let m1 := mkMach (sm_set (m_cl m) id (mkObj rc' (oclosed o) (odata o))) (m_hp m) in
           let e0 := [mark; ev SC ERelease id (Some rc')] in
           if rc' =? 0 then
-            let raws := up id in
+            let raws := if oclosed o then up id else [] in
             let (refs, e1) := resolve_refs m1 raws in
             match drop_refs (drop_closure fuel' up) m1 refs (e0 ++ ref_events raws ++ e1) with
             | Ok (m4, e4) =>
@@ -497,7 +498,7 @@ Fixpoint drop_closure (fuel : nat) (up : upvalue_oracle) (m : mach) (id : key) :
 (* get_closure / get_closure_mut: the H2 use event (and assertion) *)
 Definition use_closure (m : mach) (c : key) : list event := [ev SC EUse c (rc_of (m_cl m) c)].
 
-(* release_heap_closure *)
+(* release_heap_closure: `if !closure.is_closed || last_handle { drop_closure }`, then heap_release *)
 Definition release_heap_closure (fuel : nat) (up : upvalue_oracle) (m : mach) (hk : key)
   : outcome (mach * list event) :=
   let mark := mkEv SH (EMark 1) hk (Some 0) in
@@ -506,6 +507,9 @@ Definition release_heap_closure (fuel : nat) (up : upvalue_oracle) (m : mach) (h
     | Some o => match odata o with c :: _ => Some (key_of_raw c) | [] => None end
     | None => None
     end in
+  (* `last_handle`: the wrapper is about to lose its last reference, so nobody can reach the closure any more *)
+  let last_handle :=
+    match sm_get (m_hp m) hk with Some o => orc o =? 1 | None => false end in
   let after (m1 : mach) (e1 : list event) :=
     let (m2, e2) := heap_release_ev m1 hk in Ok (m2, mark :: e1 ++ e2) in
   match maybe_closure with
@@ -513,7 +517,7 @@ Definition release_heap_closure (fuel : nat) (up : upvalue_oracle) (m : mach) (h
       match sm_get (m_cl m) c with
       | None => Panicked (mark :: use_closure m c)         (* get_closure on a stale key *)
       | Some co =>
-          if oclosed co then after m (use_closure m c)
+          if oclosed co && negb last_handle then after m (use_closure m c)
           else
             match drop_closure fuel up m c with
             | Ok (m1, e1) => after m1 (use_closure m c ++ e1)
